@@ -1039,6 +1039,9 @@ pub struct GlobalData {
     /// Invoked Sessions. Key: InvokeId.
     pub child_sessions: HashMap<InvokeId, ScxmlSession>,
 
+    /// Ids of the invocations that were cancelled by this session. Events of these sessions are ignored.
+    pub cancelled_invokes: HashSet<InvokeId>,
+
     /// Set if this FSM was created as result of some invoke.
     pub caller_invoke_id: Option<InvokeId>,
     pub parent_session_id: Option<SessionId>,
@@ -1070,6 +1073,7 @@ impl GlobalData {
             internalQueue: Queue::new(),
             externalQueue: BlockingQueue::new(),
             child_sessions: HashMap::new(),
+            cancelled_invokes: HashSet::new(),
             caller_invoke_id: None,
             parent_session_id: None,
             session_id: 0,
@@ -1633,11 +1637,14 @@ impl Fsm {
                             //    Once it cancels the invoked session, the Processor MUST ignore any events
                             //    it receives from that session. In particular it MUST NOT not insert them
                             //    into the external event queue of the invoking session.
-                            // Check if the session is active.
-                            if get_global!(datamodel)
-                                .child_sessions
-                                .contains_key(invoke_id)
-                            {
+                            // Only events of sessions that this session has invoked and cancelled are ignored.
+                            // Events of other sessions (e.g. a session invoked by somebody else) are delivered.
+                            let is_cancelled = {
+                                let global = get_global!(datamodel);
+                                !global.child_sessions.contains_key(invoke_id)
+                                    && global.cancelled_invokes.contains(invoke_id)
+                            };
+                            if !is_cancelled {
                                 externalEvent = externalEventTmp;
                                 break;
                             } else {
@@ -3184,9 +3191,9 @@ impl Fsm {
                 session.state_id = Some(state_id);
                 session.invoke_doc_id = inv.doc_id;
 
-                get_global!(datamodel)
-                    .child_sessions
-                    .insert(invokeId, session);
+                let mut global = get_global!(datamodel);
+                global.cancelled_invokes.remove(&invokeId);
+                global.child_sessions.insert(invokeId, session);
             }
             Err(error) => {
                 error!("Execute of '{}' failed: {}", src, error)
@@ -3198,7 +3205,11 @@ impl Fsm {
     fn cancelInvoke(&mut self, datamodel: &mut dyn Datamodel, invoke_id: &InvokeId, session_id: SessionId) {
         #[cfg(feature = "Trace_Method")]
         self.tracer.enter_method("cancelInvoke");
-        get_global!(datamodel).child_sessions.remove(invoke_id);
+        {
+            let mut global = get_global!(datamodel);
+            global.child_sessions.remove(invoke_id);
+            global.cancelled_invokes.insert(invoke_id.clone());
+        }
         datamodel.send(
             SCXML_EVENT_PROCESSOR_SHORT_TYPE,
             &Data::String(format!("{}{}", SCXML_TARGET_SESSION_ID_PREFIX, session_id)),
